@@ -61,8 +61,8 @@ def opC11Naming (j : Json) : Except String Json := do
   match build pkgs with
   | none => pure (Json.mkObj [("root", jstr root), ("match", Json.bool false)])
   | some i =>
-    let module := Pinned.Funcs.to_valid_module_name (if nameOv = [] then i.name else nameOverrideText nameOv)
-    let versionedM := if i.version = [] then module else module ++ '_' :: i.version
+    let module := overriddenModule i nameOv
+    let versionedM := overriddenVersioned i nameOv
     pure (Json.mkObj [("root", jstr root), ("match", Json.bool true), ("ns", jarr ((nsSegments i).map jstr)),
                       ("name", jstr i.name), ("version", jstr i.version), ("versioned", jstr (versionedModule i)),
                       ("nsWith", jarr ((nsWith i (nsVals.map PyRt.lower)).map jstr)),
@@ -80,7 +80,21 @@ def opC11Opts (j : Json) : Except String Json := do
     ("numeric", Json.bool a.restNumericEnums), ("deps", jarr (a.protoPlusDeps.map jstr)),
     ("unrecognised", jarr (a.unrecognised.map jstr))])
 
+open Model.NamingOptions in
+/-- the package directory for target packages `pkgs` under the option STRING `s` (parse, pick the winners, infer, override) -/
+def opC11Root (j : Json) : Except String Json := do
+  let flags := Pinned.optFlags.map String.toList
+  let kv := parseOpts flags (← getStrL j "s")
+  match build (← strsOf j "pkgs") with
+  | none => pure (Json.mkObj [("match", Json.bool false)])
+  | some i => pure (Json.mkObj [("match", Json.bool true), ("dir", jarr ((packageDir i kv).map jstr)),
+                                ("name", jstr (answer kv).name), ("names", jarr ((values kv keyName).map jstr)),
+                                ("module", jstr (overriddenModule i (answer kv).name)),
+                                ("transport", jarr ((answer kv).transport.map jstr)),
+                                ("transports", jarr ((values kv keyTransport).map jstr)),
+                                ("warehouse", jstr (answer kv).warehouse)])
+
 def opsC11 : List (String × (Json → Except String Json)) := [("c11.renders", opC11Renders), ("c11.filename", opC11Filename),
-  ("c11.naming", opC11Naming), ("c11.opts", opC11Opts)]
+  ("c11.naming", opC11Naming), ("c11.opts", opC11Opts), ("c11.root", opC11Root)]
 
 end GapicModel.Driver
